@@ -192,6 +192,30 @@ def run(ck: Check):
         sc["faults"]["plan"] = {k: v for k, v in sc["faults"]["plan"].items() if int(k) <= 25}
         sc["cluster_events"] = [e for e in sc["cluster_events"] if e["at"] <= 4.0]
         scs.append(sc)
+    # fault enumeration: one fault at every group-request ordinal of a two-member base run in which the
+    # second member's arrival forces the first one to re-join (JoinGroup / SyncGroup / Heartbeat / ... of a
+    # member that already holds an assignment)
+    def base(sid, plan):
+        mk = lambda name, delay: {"name": name, "group": "g", "topics": ["t0"], "assignors": ["range"],  # noqa: E731
+                                  "auto_commit": True, "auto_commit_interval_ms": 300, "cb_delay": 0.01, "_stays": True,
+                                  "program": [["sleep", delay], ["start"], ["consume", 4.0, 0.1, None, 0],
+                                              ["consume", quiet + 4.0, 0.1, None, 0], ["stop"]]}
+        return {"id": sid, "seed": 7, "brokers": 1, "topics": {"t0": 4}, "preload": {"t0": {"0": 3, "1": 3, "2": 0, "3": 0}},
+                "consumers": [mk("c0", 0.0), mk("c1", 1.5)], "cluster_events": [],
+                "faults": {"apis": conssim.GROUP_APIS, "plan": plan}, "coordinator": 0, "max_vtime": 600.0}
+    b0 = conssim.run_scenarios([base("base", {})], shards=1)[0]
+    nreq = 0
+    if b0.get("ok"):
+        t0 = min(e["t"] for e in b0["trace"])
+        nreq = sum(1 for e in b0["trace"] if e["ev"] == "request" and e["api"] in conssim.GROUP_APIS and e["t"] - t0 < 4.0)
+    kinds = ["drop_before", "no_reply"] if not ck.thorough else ["drop_before", "no_reply", "drop_after", "error:27", "error:16", "error:25"]
+    fe = 0
+    for k in range(1, min(nreq, ck.n(45, 90)) + 1):
+        for kind in kinds:
+            f = {"kind": "error", "code": int(kind.split(":")[1])} if kind.startswith("error") else {"kind": kind}
+            scs.append(base(f"fe-{k}-{kind}", {str(k): f}))
+            fe += 1
+    ck.extra["fault_enumeration_runs"] = fe
     results = conssim.run_scenarios(scs, timeout=ck.n(900, 3000))
     nbad = 0
     hist = {"failed_runs": 0, "with_live_members": 0}
